@@ -108,4 +108,145 @@ theorem ingrInter_val (i : PIngredient α) (igr : Ingredient (ScalableValue α))
     rw [hp] at this
     exact ⟨rel, this, rfl⟩
 
+/-- what the regular branch of `ingredient` does to the table and which ingredient it builds -/
+theorem ingrRegular_spec (env : Env) (input : Str) (li : Loc (PIngredient α)) (igr0 : Ingredient (ScalableValue α))
+    (s : Col α) (hloc : s.locIngr.size = s.ingredients.size)
+    (hdef : ∀ (k : Nat) (ig : Ingredient (ScalableValue α)), s.ingredients[k]? = some ig →
+      ig.modifiers.contains Modifiers.REF = false → ∃ rf b, ig.relation.relation = .definition rf b) :
+    ∃ dg p ings, (ingrRegular env input li igr0 s).2 = { s with diags := dg, panic := p, ingredients := ings } ∧
+      (ingrRegular env input li igr0 s).1.name = igr0.name ∧
+      ((ings = s.ingredients ∧ (ingrRegular env input li igr0 s).1.relation = igr0.relation) ∨
+       (∃ t defn rf b, s.ingredients[t]? = some defn ∧ defn.relation.relation = .definition rf b ∧
+          defn.modifiers.contains Modifiers.REF = false ∧ nameEq env igr0.name defn.name = true ∧
+          (ingrRegular env input li igr0 s).1.relation = ⟨.reference t, some .ingredient⟩ ∧
+          (ingrRegular env input li igr0 s).1.modifiers.contains Modifiers.REF = true ∧
+          ings = s.ingredients.setIfInBounds t
+            { defn with relation := ⟨.definition (rf ++ [s.ingredients.size]) b, defn.relation.referenceTarget⟩ })) := by
+  unfold ingrRegular
+  simp +instances only [A_bind, A_get]
+  obtain ⟨d1, p1, h1⟩ := (resolveReference_diagOnly (α := α) env "ingredient"
+    (Modifiers.HIDDEN ||| Modifiers.OPT ||| Modifiers.RECIPE) (s.ingredients.toList.map (fun x => (x.name, x.modifiers)))
+    igr0.name igr0.modifiers li.span li.val.modifiers.span).out s
+  have hout := resolveReference_out (α := α) env "ingredient"
+    (Modifiers.HIDDEN ||| Modifiers.OPT ||| Modifiers.RECIPE) (s.ingredients.toList.map (fun x => (x.name, x.modifiers)))
+    igr0.name igr0.modifiers li.span li.val.modifiers.span s
+  generalize resolveReference (α := α) env "ingredient"
+    (Modifiers.HIDDEN ||| Modifiers.OPT ||| Modifiers.RECIPE) (s.ingredients.toList.map (fun x => (x.name, x.modifiers)))
+    igr0.name igr0.modifiers li.span li.val.modifiers.span s = rr at h1 hout ⊢
+  cases ho : rr.1.2 with
+  | none =>
+    simp only [A_pure]
+    exact ⟨d1, p1, s.ingredients, h1, trivial, Or.inl ⟨rfl, trivial⟩⟩
+  | some o =>
+    obtain ⟨hsn, hREF⟩ := hout o ho
+    obtain ⟨n, m, hex, hmREF, hname⟩ := sameNameIdx_spec _ _ _ _ hsn
+    simp only [List.getElem?_map, Array.getElem?_toList, Option.map_eq_some_iff, Prod.mk.injEq] at hex
+    obtain ⟨defn, hdefn, rfl, rfl⟩ := hex
+    have hlt : o.refTo < s.ingredients.size := by
+      rcases Nat.lt_or_ge o.refTo s.ingredients.size with h | h
+      · exact h
+      · rw [Array.getElem?_eq_none h] at hdefn; cases hdefn
+    obtain ⟨defLoc, hdefLoc⟩ : ∃ dl, s.locIngr[o.refTo]? = some dl :=
+      ⟨s.locIngr[o.refTo]'(by omega), Array.getElem?_eq_getElem _⟩
+    obtain ⟨rf, b, hrel⟩ := hdef _ _ hdefn hmREF
+    simp +instances only [A_bind, A_get, A_pure, h1, hdefn, hdefLoc]
+    obtain ⟨d2, p2, h2⟩ := (ingrRefChecks_diagOnly env input li
+      { igr0 with relation := ⟨.reference o.refTo, some .ingredient⟩, modifiers := rr.1.1 } o.refTo defn defLoc).out
+      { s with diags := d1, panic := p1 }
+    simp only [h2, ingrSetReferencedFrom, hrel, A_modify]
+    exact ⟨d2, p2, _, rfl, trivial, Or.inr ⟨o.refTo, defn, rf, b, hdefn, hrel, hmREF, hname, rfl, hREF, rfl⟩⟩
+
+theorem optQuantityOf_diagOnly (env : Env) (q : Option (Loc (PQuantity α))) (b : Bool) :
+    DiagOnly (optQuantityOf env q b) := by
+  unfold optQuantityOf
+  diag_only
+macro_rules | `(tactic| diag_leaf) => `(tactic| exact optQuantityOf_diagOnly ..)
+
+theorem optValueOf_diagOnly (env : Env) (q : Option (Loc (PQValue α))) : DiagOnly (optValueOf env q) := by
+  unfold optValueOf
+  diag_only
+macro_rules | `(tactic| diag_leaf) => `(tactic| exact optValueOf_diagOnly ..)
+
+theorem timerQuantityChecks_diagOnly (env : Env) (q : Loc (PQuantity α)) (r : Quantity (ScalableValue α)) :
+    DiagOnly (timerQuantityChecks env q r) := by
+  unfold timerQuantityChecks
+  diag_only
+macro_rules | `(tactic| diag_leaf) => `(tactic| exact timerQuantityChecks_diagOnly ..)
+
+theorem timerQuantity_diagOnly (env : Env) (q : Option (Loc (PQuantity α))) : DiagOnly (timerQuantity env q) := by
+  unfold timerQuantity
+  diag_only
+macro_rules | `(tactic| diag_leaf) => `(tactic| exact timerQuantity_diagOnly ..)
+
+theorem timerQuantity_isSome (env : Env) (q : Option (Loc (PQuantity α))) (s : Col α) :
+    (timerQuantity env q s).1.isSome = q.isSome := by
+  unfold timerQuantity
+  cases q with
+  | none => rfl
+  | some q => rfl
+
+/-- how `ingredientA` extends the ingredient table: `ings` is the old table after the back-link update,
+    `igr` the new last entry -/
+def IngrStep (env : Env) (s : Col α) (ings : Array (Ingredient (ScalableValue α)))
+    (igr : Ingredient (ScalableValue α)) : Prop :=
+  (ings = s.ingredients ∧ ∃ b, igr.relation = ⟨.definition [] b, none⟩) ∨
+  (ings = s.ingredients ∧ igr.modifiers.contains Modifiers.REF = true ∧
+    ∃ rel d, interRefTarget s.cur.content s.sections.length d = .ok rel ∧ igr.relation = rel) ∨
+  (∃ t defn rf b, s.ingredients[t]? = some defn ∧ defn.relation.relation = .definition rf b ∧
+    defn.modifiers.contains Modifiers.REF = false ∧ nameEq env igr.name defn.name = true ∧
+    igr.relation = ⟨.reference t, some .ingredient⟩ ∧ igr.modifiers.contains Modifiers.REF = true ∧
+    ings = s.ingredients.setIfInBounds t
+      { defn with relation := ⟨.definition (rf ++ [s.ingredients.size]) b, defn.relation.referenceTarget⟩ })
+
+theorem ingrBuild_spec (env : Env) (input : Str) (li : Loc (PIngredient α)) (igr0 : Ingredient (ScalableValue α))
+    (s : Col α) (hloc : s.locIngr.size = s.ingredients.size)
+    (hdef : ∀ (k : Nat) (ig : Ingredient (ScalableValue α)), s.ingredients[k]? = some ig →
+      ig.modifiers.contains Modifiers.REF = false → ∃ rf b, ig.relation.relation = .definition rf b)
+    (hev : li.val.inter.isSome = true → igr0.modifiers.contains Modifiers.REF = true)
+    (h0 : ∃ b, igr0.relation = ⟨.definition [] b, none⟩) :
+    ∃ dg p ings igr, ingrBuild env input li igr0 s =
+        (s.ingredients.size, { s with diags := dg, panic := p, ingredients := ings.push igr,
+                                      locIngr := s.locIngr.push li }) ∧
+      ings.size = s.ingredients.size ∧ IngrStep env s ings igr := by
+  unfold ingrBuild
+  simp +instances only [A_bind, A_get, A_pure, A_modify]
+  cases hi : li.val.inter with
+  | some d =>
+    simp only []
+    obtain ⟨d1, p1, h1⟩ := (ingrInter_diagOnly li.val igr0 d).out s
+    refine ⟨d1, p1, s.ingredients, (ingrInter li.val igr0 d s).1, ?_, rfl, ?_⟩
+    · rw [h1]; simp only [Array.size_push, Nat.add_sub_cancel]
+    · rcases ingrInter_val li.val igr0 d s with hv | ⟨rel, hrel, hv⟩
+      · rw [hv]; exact Or.inl ⟨rfl, h0⟩
+      · rw [hv]; exact Or.inr (Or.inl ⟨rfl, hev (by rw [hi]; rfl), rel, d.val, hrel, rfl⟩)
+  | none =>
+    simp only []
+    obtain ⟨d1, p1, ings, h1, hname, hcase⟩ := ingrRegular_spec env input li igr0 s hloc hdef
+    refine ⟨d1, p1, ings, (ingrRegular env input li igr0 s).1, ?_, ?_, ?_⟩
+    · rw [h1]
+      rcases hcase with ⟨he, _⟩ | ⟨t, defn, rf, b, _, _, _, _, _, _, he⟩ <;> rw [he] <;>
+        simp only [Array.size_push, Array.size_setIfInBounds, Nat.add_sub_cancel]
+    · rcases hcase with ⟨he, _⟩ | ⟨t, defn, rf, b, _, _, _, _, _, _, he⟩ <;> rw [he]
+      simp only [Array.size_setIfInBounds]
+    · rcases hcase with ⟨he, hr⟩ | ⟨t, defn, rf, b, h1, h2, h3, h4, h5, h6, he⟩
+      · obtain ⟨b, hb⟩ := h0
+        exact Or.inl ⟨he, b, by rw [hr, hb]⟩
+      · exact Or.inr (Or.inr ⟨t, defn, rf, b, h1, h2, h3, by rw [hname]; exact h4, h5, h6, he⟩)
+
+theorem ingredientA_spec (env : Env) (input : Str) (li : Loc (PIngredient α)) (s : Col α)
+    (hloc : s.locIngr.size = s.ingredients.size)
+    (hdef : ∀ (k : Nat) (ig : Ingredient (ScalableValue α)), s.ingredients[k]? = some ig →
+      ig.modifiers.contains Modifiers.REF = false → ∃ rf b, ig.relation.relation = .definition rf b)
+    (hev : li.val.inter.isSome = true → li.val.modifiers.val.contains Modifiers.REF = true) :
+    ∃ dg p ings igr, ingredientA env input li s =
+        (s.ingredients.size, { s with diags := dg, panic := p, ingredients := ings.push igr,
+                                      locIngr := s.locIngr.push li }) ∧
+      ings.size = s.ingredients.size ∧ IngrStep env s ings igr := by
+  unfold ingredientA
+  simp +instances only [A_bind, A_get]
+  obtain ⟨d0, p0, h0⟩ := (optQuantityOf_diagOnly env li.val.quantity true).out s
+  generalize optQuantityOf env li.val.quantity true s = qq at h0 ⊢
+  rw [h0]
+  exact ingrBuild_spec env input li _ { s with diags := d0, panic := p0 } hloc hdef hev ⟨_, rfl⟩
+
 end Cook
